@@ -144,8 +144,8 @@ func runScenario(t *testing.T, c Case) run {
 			}
 			mu.Unlock()
 		}
-		var seq atomic.Int64     // global order of trigger calls and run starts
-		var barrier atomic.Bool  // some StopAndWait has returned
+		var seq atomic.Int64    // global order of trigger calls and run starts
+		var barrier atomic.Bool // some StopAndWait has returned
 		var regs []*reg
 		var sawDone []*atomic.Bool
 		var stopDone []*atomic.Bool // all Stop/StopAndWait calls, in script order
@@ -458,7 +458,6 @@ func genScenario(r *vlib.Rand, big bool) []Step {
 	steps = append(steps, Step{Op: "trig", I: r.Intn(nreg)}, Step{Op: "adv", A: 7}, Step{Op: "wait"})
 	return steps
 }
-
 
 // ---------------------------------------------------------------------------------------------
 // real-threads stress of the barrier clause (outside synctest)
